@@ -464,12 +464,28 @@ def pytestPlugins (acc : List String) : List Stmt → List String
     | some (.tuple es _) => pytestPlugins (strElts es) ss
     | some _ => pytestPlugins [] ss
 
+mutual
+  /-- function ranges in the order `find_function_containing_line` tries them: top-level functions
+      and, recursively, the methods of classes (nested functions are never entered). -/
+  def funcRangesStmt : Stmt → List (String × Nat × Nat)
+    | .funcDef _ name _ _ _ _ r => [(name, r.line, r.endLine)]
+    | .classDef _ _ body _ => funcRangesOf body
+    | _ => []
+  def funcRangesOf : List Stmt → List (String × Nat × Nat)
+    | [] => []
+    | s :: ss => funcRangesStmt s ++ funcRangesOf ss
+end
+
 /-- What one successfully parsed text contributes. -/
 structure FileRec where
   events : List Event
   modNames : List String
   imports : List ImportRec
   plugins : List String
+  /-- `(name, first line, last line)` of the functions `find_containing_function` can answer with -/
+  funcRanges : List (String × Nat × Nat) := []
+  /-- the module body (completion context and other AST-walking queries re-read the cached AST) -/
+  body : List Stmt := []
   deriving Repr, Inhabited
 
 def analyzeModule (stdlib : List String) (f : Path) (text : Chars) (body : List Stmt) : FileRec :=
@@ -477,7 +493,9 @@ def analyzeModule (stdlib : List String) (f : Path) (text : Chars) (body : List 
   { events := cutAtPanic (visitStmts f (linesOf text) mn body),
     modNames := mn,
     imports := fixtureImports stdlib body,
-    plugins := pytestPlugins [] body }
+    plugins := pytestPlugins [] body,
+    funcRanges := funcRangesOf body,
+    body := body }
 
 def FileRec.defs (r : FileRec) : List Def :=
   r.events.filterMap (fun e => match e with | .defn d => some d | _ => none)
